@@ -263,7 +263,7 @@ def expected_fault_free(script, pop):
 
 
 def gen_range(rng, hi):
-    a = rng.randint(0, hi)
+    a = rng.choice([rng.randint(0, hi), hi]) if hi > 10 else rng.randint(0, hi)
     return (a, rng.choice([None, None, rng.randint(a, hi)]))
 
 
@@ -293,18 +293,22 @@ def gen_operand(rng, pop, verb, alone):
     if k == 'zone':
         # also a group's name where a light's is expected
         return ('zone', light() if rng.random() < 0.9 else group(),) + gen_range(rng, 7)
+    target = mlight()
+    # rows and columns within the extent for a matrix light; for every other target (no matrix
+    # capability, unknown name) anything goes: the command is skipped whatever it addresses
+    hi_r, hi_c = (2, 3) if target in tiles else rng.choice([(2, 3), (20, 40), (254, 254), (255, 300), (5000, 70000)])
     if k == 'rc':
-        rows = gen_range(rng, 2) if rng.random() < 0.7 else None
-        cols = gen_range(rng, 3) if (rows is None or rng.random() < 0.6) else None
-        return ('rc', mlight(), rows, cols)
+        rows = gen_range(rng, hi_r) if rng.random() < 0.7 else None
+        cols = gen_range(rng, hi_c) if (rows is None or rng.random() < 0.6) else None
+        return ('rc', target, rows, cols)
     items = []
     for _ in range(rng.randint(1, 3)):
         if rng.random() < 0.3:
             items.append(('reg', rng.randint(1, 12)))
-        rows = gen_range(rng, 2) if rng.random() < 0.7 else None
-        cols = gen_range(rng, 3) if (rows is None or rng.random() < 0.6) else None
+        rows = gen_range(rng, hi_r) if rng.random() < 0.7 else None
+        cols = gen_range(rng, hi_c) if (rows is None or rng.random() < 0.6) else None
         items.append(('stage', rows, cols))
-    return ('block', mlight(), items)
+    return ('block', target, items)
 
 
 def gen_script(rng, pop, with_get):
